@@ -132,6 +132,10 @@ def runRel (c : Case) : Verdict :=
   | "eq" =>
     let ok := a == b && !(a.startsWith "!")
     { agree := ok, spec := if ok then "ok" else if a == b then "fail:both-runs-failed" else "fail:the-two-runs-differ", model := a }
+  | "same" =>
+    -- two readers of one text: the same records, or both refuse it
+    let ok := a == b && !(a.startsWith "!panic") && !(a.startsWith "!timeout")
+    { agree := ok, spec := if ok then "ok" else "fail:the-two-readers-differ", model := a }
   | "allsame" =>
     let ok := c.nat "ndistinct" == 1 && !(a.startsWith "!")
     { agree := ok, spec := if ok then "ok" else if a.startsWith "!" then "fail:a-run-failed"
